@@ -245,7 +245,7 @@ class World:
         ftpc = sw.software.get("ftp-client")
         port = inst and any(v is db for v in sw.port_protocol_mapping.values())
         svc = f"{db.operating_state.name},{db.health_state_actual.name}" if inst else "absent,absent"
-        fcs = "-" if ftpc is None else f"{ftpc.operating_state.name}:{ftpc.health_state_actual.name}"
+        fcs = "-" if ftpc is None else f"{ftpc.operating_state.name}:{ftpc.health_state_actual.name}:{1 if len(ftpc.connections) else 0}"
         def dels(name):
             fo = srv.file_system.get_folder(name)
             return "" if fo is None else "/".join(f.health_status.name for f in fo.deleted_files.values() if f.name == "database.db")
